@@ -13,7 +13,7 @@
 
 namespace OP2Utility
 {
-	enum class CellType;
+	enum class CellType : unsigned int;
 
 	struct MapHeader;
 
